@@ -128,7 +128,7 @@ pub fn record(args: &[String]) {
     let n = arg_u64(args, "--n", 60);
     let path = arg_value(args, "--out").unwrap_or_else(|| tool_error("--out required"));
     let mut rng = rng(seed, 80);
-    let named = [("unary", vec!["-", "!", "not", "+"]), ("binary", vec!["-", "+", "*", "==", "=", "in", "&&"]), ("postfix", vec!["++", "--"]),
+    let named = [("unary", vec!["-", "!", "not", "+", "++", "--"]), ("binary", vec!["-", "+", "*", "==", "=", "in", "&&"]), ("postfix", vec!["++", "--"]),
                  ("function", vec!["f", "g2", "min", "a"]), ("reference", vec!["a", "b", "x", "f", "cfg.limit"])];
     let unnamed = ["ternary", "list", "map", "chain"];
     let mut recs = Vec::new();
